@@ -89,8 +89,41 @@ def mutant_selftest(ctx, jobs=6):
     ctx.counters['mutants_run'] = len(ids)
 
 
+def seeded_selftest(ctx):
+    """apply the independently written breaking changes kept for this property (seeded/<id>/patch.diff) to scratch copies
+    under /tmp and record whether this property's check reports them (evidence only)"""
+    import glob, shutil, tempfile
+    seeds = sorted(glob.glob(os.path.join(VERIF, 'seeded', ctx.prop + '-*')))
+    if not seeds:
+        return
+    detected = []; missed = []; skipped = []
+    base = tempfile.mkdtemp(prefix='dpseed_', dir='/tmp')
+    try:
+        cache = os.path.join(base, 'cache')
+        os.makedirs(cache)
+        src = os.path.join(extract.CACHE, 'target')
+        if os.path.isdir(src):
+            subprocess.run(['cp', '-a', src, os.path.join(cache, 'target')], check=False)
+        for s in seeds:
+            sid = os.path.basename(s)
+            work = os.path.join(base, sid)
+            subprocess.run(['rsync', '-a', '--exclude', '/target', '--exclude', '.git', extract.REPO + '/', work + '/'], check=True)
+            r = subprocess.run(['patch', '-p1', '-s', '-i', os.path.join(s, 'patch.diff')], cwd=work, capture_output=True, text=True)
+            if r.returncode != 0:
+                skipped.append(sid); shutil.rmtree(work, ignore_errors=True); continue
+            env = dict(os.environ, DP_REPO=work, DP_CACHE=cache)
+            c = subprocess.run([os.path.join(VERIF, 'check'), ctx.prop, '--tier', 'quick', '--no-evidence'], env=env, capture_output=True, text=True)
+            (detected if c.returncode == 1 else missed).append(sid)
+            shutil.rmtree(work, ignore_errors=True)
+    finally:
+        shutil.rmtree(base, ignore_errors=True)
+    ctx.info.setdefault('extra', {})['seeded_selftest'] = {'detected': detected, 'missed': missed, 'patch_no_longer_applies': skipped}
+    ctx.counters['seeds_run'] = len(detected) + len(missed)
+
+
 def run(ctx, mod):
     feature_matrix(ctx, mod)
     witnesses(ctx)
     if os.environ.get('DP_SKIP_SELFTEST') != '1':
         mutant_selftest(ctx)
+        seeded_selftest(ctx)
